@@ -87,6 +87,9 @@ def history(space, n, loss_pattern, shift=0):
     elif loss_pattern == "inf":
         losses = 1.0 + ((k * 7) % n) * 0.37
         losses[n // 2] = np.inf
+    elif loss_pattern in ("f32under", "f32over", "neginf"):   # ONE side of the float32 range only (wave 6: a clip that copies in one branch only)
+        losses = 1.0 + ((k * 7) % n) * 0.37
+        losses[n // 2] = {"f32under": -1e39, "f32over": 1e39, "neginf": -np.inf}[loss_pattern]
     else:
         raise ValueError(loss_pattern)
     return pts, losses.astype(float)
